@@ -121,7 +121,7 @@ def paths_for(g, chain, has_index, in_sizeof_ok=False):
     return out
 
 
-def gen_probe(g, chain, has_index, later_marker=None, allow=None, buildnone_only=False, fixed_layout=False):
+def gen_probe(g, chain, has_index, later_marker=None, allow=None, buildnone_only=False, fixed_layout=False, layout_role=False):
     """one planted member: (name|None, spec, value to supply or None) ; has_index = number of scopes (incl. current) that
     inherited a repetition index (0 = none)"""
     draw = g.draw
@@ -139,6 +139,8 @@ def gen_probe(g, chain, has_index, later_marker=None, allow=None, buildnone_only
                                     ["computed", "rebuild", "switch", "ite", "arith"]))
         if fixed_layout:
             role = draw(st.sampled_from(["computed", "rebuild", "arith"]))      # the reference decides a value, never the layout
+        elif layout_role:
+            role = draw(st.sampled_from(["switch", "ite"] if buildnone_only else ["bytes", "array", "switch", "ite"]))   # ... or the layout for sure
     nm = g.name("p")
     if role == "computed":
         return nm, ["computed", path], None
@@ -173,7 +175,7 @@ def _names_in(e):
     return _names_in(e[2])
 
 
-def gen_scope(g, chain, depth, has_index, in_grange=False, want_index=False, element_of_grange=False, fixed_layout=False):
+def gen_scope(g, chain, depth, has_index, in_grange=False, want_index=False, element_of_grange=False, fixed_layout=False, index_layout=False):
     """-> (spec, value) for one scope; chain = [(marker name, value)...] of enclosing scopes"""
     draw = g.draw
     # (a LazyStruct skips its members by seeking and so never notices a truncated element: not inside GreedyRange elements)
@@ -185,6 +187,8 @@ def gen_scope(g, chain, depth, has_index, in_grange=False, want_index=False, ele
         g.labels.add("scope/" + kind)
     mval = draw(st.integers(1, 8))
     mname = g.name("m")
+    if draw(st.integers(0, 5)) == 0 and kind not in ("fseq",):
+        mname = "_" + mname     # a leading underscore does not make a member private to the context
     mform = draw(st.sampled_from(["plain", "plain", "const", "default"] if kind != "fseq" else ["plain", "default", "default", "const"]))
     marker = [mname, BYTE if mform == "plain" else (["const", mval, BYTE] if mform == "const" else ["default", BYTE, mval])]
     # members of a LazyStruct are not parsed until accessed, so (documented restriction) nothing may refer to them by name
@@ -210,7 +214,8 @@ def gen_scope(g, chain, depth, has_index, in_grange=False, want_index=False, ele
                 al = ("index",)     # element of a repetition: at least one member depends on the repetition index
             if fixed_layout:
                 al = ("marker", "param")
-            nm, sp, val = gen_probe(g, here, hi, allow=al, buildnone_only=(kind == "fseq"), fixed_layout=fixed_layout)    # (a FocusedSeq builds only its focus from a value)
+            nm, sp, val = gen_probe(g, here, hi, allow=al, buildnone_only=(kind == "fseq"), fixed_layout=fixed_layout,
+                                    layout_role=(index_layout and al == ("index",)))    # (a FocusedSeq builds only its focus from a value)
             members.append([nm, sp])
             values[nm] = val
     if kind == "union":
@@ -223,9 +228,9 @@ def gen_scope(g, chain, depth, has_index, in_grange=False, want_index=False, ele
     add_probes(draw(st.integers(1 if want_index else 0, 2)))
     if depth > 1 and kind != "lazystruct" and not (kind == "fseq" and mform == "plain") and draw(st.integers(0, 4)) != 0:
         cname = g.name("c")
-        rep = draw(st.sampled_from(["none", "none", "array", "arrayk", "grange", "runtil"] if not fixed_layout else ["none", "none", "array"]))
+        rep = draw(st.sampled_from(["none", "none", "array", "arrayk", "grange", "grange", "runtil"] if not fixed_layout else ["none", "none", "array"]))
         # discard=True: the elements are processed (their references must resolve as ever, _index must keep counting) but not kept
-        discard = rep != "none" and draw(st.integers(0, 3)) == 0
+        discard = rep != "none" and draw(st.integers(0, 3 if rep != "grange" else 1)) == 0
         if rep == "none":
             # a nested scope of fixed layout (references decide values only) can sit inside a SIZED transforming region
             fixed_child = fixed_layout or (kind != "fseq" and draw(st.integers(0, 5)) == 0)
@@ -249,7 +254,7 @@ def gen_scope(g, chain, depth, has_index, in_grange=False, want_index=False, ele
                 pk = draw(st.sampled_from(sorted(g.params)))
                 n = g.params[pk]
             cs, cv, _ = gen_scope(g, here, depth - 1, 1, in_grange or rep == "grange", want_index=(discard or draw(st.integers(0, 2)) == 0) and not fixed_layout,
-                                   element_of_grange=(rep == "grange"), fixed_layout=fixed_layout)
+                                   element_of_grange=(rep == "grange"), fixed_layout=fixed_layout, index_layout=discard)   # (discarded elements show only through the layout)
             if discard:
                 g.labels.add("repetition/discard")
             if rep == "array":
